@@ -286,7 +286,7 @@ def run(ck):
                "non-contiguous) and ports (incl. 0), through the Python API, the agent-action request path and scenario "
                "loading; non-trivial = contains at least one packet check; distinct by canonical JSON")
     coq_props(ck)
-    gen_tie.check(ck, ["acl", "aclrule"])
+    gen_tie.check(ck, ["acl", "aclrule", "acllist"])
     rng = ck.rng
     cases = []
     corpus = os.path.join(os.path.dirname(__file__), "..", "..", "corpus", "C07.json")
